@@ -319,7 +319,11 @@ def run_check(pid, tier, seed):
             every = getattr(prop, "UNIVERSAL_EVERY", 0)
             if every and ci % every == every - 1:
                 # a feature-rich random program (props/universal.py) in place of the property's own generator
-                import props.universal as universal
+                kind = getattr(prop, "UNIVERSAL_KIND", "seq")
+                if kind == "bp" or (kind == "both" and (ci // every) % 2 == 0):
+                    import props.universal_bp as universal
+                else:
+                    import props.universal as universal
                 ops = universal.program(g, ci)
                 ops[0] = {**ops[0], "_universal": True}
             else:
